@@ -2,6 +2,7 @@
   Monotonicity (part 2): operators on results, sequence operators, folds.
 -/
 import Fadl.Lemmas.RefinePrim
+import Fadl.Lemmas.DictSem
 namespace Fadl
 set_option linter.unusedSimpArgs false
 
@@ -12,13 +13,13 @@ theorem mkDictLz_mono {ks ks' vs vs' : List Val} (hk : VLeS ks ks') (hv : VLeS v
   by_cases hc : Val.cleanL ks
   · have e : ks' = ks := VLeS.eq_of_clean hc hk
     subst e
-    simp only [hc, if_true, mkDict] at ho ⊢
-    by_cases hd : hasDupKey ks'
-    · simp [hd] at ho
-    · simp only [hd] at ho ⊢
-      simp only [Bool.false_eq_true, if_false, Except.ok.injEq] at ho ⊢
-      subst ho
-      exact ⟨_, rfl, by simp only [VLe]; exact ⟨hk, hv⟩⟩
+    simp only [hc, if_true, mkDict, Except.ok.injEq] at ho ⊢
+    subst ho
+    obtain ⟨e1, e2⟩ := dictBuild_mono ks' vs vs' [] [] [] hv (by simp [VLeS])
+    refine ⟨_, rfl, ?_⟩
+    simp only [VLe]
+    rw [← e1]
+    exact ⟨dictBuild_keys_self ks' vs [] [] hk (by simp [VLeS]), e2⟩
   · simp [hc] at ho
 
 theorem seqRes_mono : ∀ {rs rs' : List Res}, All2 RLe rs rs' → RLeS (seqRes rs) (seqRes rs')
